@@ -9,7 +9,7 @@ PKG = "vcr/revocation"
 HARNESS = ["vcr/revocation/zz_verif_c11_test.go"]
 PKG_V = "vcr/verifier"
 HARNESS_V = ["vcr/verifier/zz_verif_c11v_test.go"]
-HARNESSES = [(PKG, HARNESS, "c11")]
+HARNESSES = [(PKG, HARNESS, "c11"), (PKG_V, HARNESS_V, "c11v")]
 
 REQUIRED = ["entries_injective", "einv_fresh", "bit_set_get", "bit_total", "served_list_signed_and_fresh", "list_signed_in_same_transaction",
             "set_monotone", "served_bit_never_cleared", "revoke_idempotent", "revoked_forever_network", "revocation_before_credential",
@@ -133,6 +133,133 @@ def oracle(ctx, ops, impl, max_index, min_left_min):
     return stats, bad
 
 
+def voracle(ops, impl):
+    """direct property checks on the real vcr/verifier's answers (network revocations)"""
+    stats = Counter()
+    bad = []
+    accepted = {}   # subject -> set(issuer named by an accepted revocation)
+    refused_honest = {}  # subject -> set(issuer) whose own properly signed revocation was refused as issuer-mismatch
+    seen_creds = set()   # (id, issuer) verified in this scenario
+
+    def report(sig, what, i):
+        if sig not in [b[0] for b in bad]:
+            bad.append((sig, what, i))
+
+    def pre(s):
+        return s.split("#")[0]
+
+    for i, line in enumerate(impl):
+        if i >= len(ops) or not ops[i]:
+            continue
+        op = json.loads(ops[i])
+        kind = op.get("op")
+        if "panic:" in line:
+            report("C11:panic", f"operation {kind} panicked: {line[:200]}", i)
+        if kind == "vreset":
+            accepted, refused_honest, seen_creds = {}, {}, set()
+        elif kind == "vregister":
+            stats["register"] += 1
+            subj = op["subject"] + ("x" if op.get("tamper") == "subject" else "")
+            honest = (op["vm"] == op["signer"] and pre(op["vm"]) == op["issuer"] and op.get("tamper", "") in ("", "reason") and not op.get("drop"))
+            if line == "vregister ok":
+                stats["register-accepted"] += 1
+                forged = []
+                if pre(subj) != op["issuer"]:
+                    forged.append("names-another-issuer-than-id-prefix")
+                if pre(op["vm"]) != op["issuer"]:
+                    forged.append("key-of-another-party")
+                if op["vm"] != op["signer"]:
+                    forged.append("signed-with-another-key")
+                if op.get("tamper", "") not in ("", "reason"):
+                    forged.append("changed-after-signing")
+                if op.get("drop"):
+                    forged.append("required-field-missing")
+                if forged:
+                    report("C11:forged-revocation-accepted:" + "+".join(forged), f"{ops[i][:300]}", i)
+                accepted.setdefault(subj, set()).add(op["issuer"])
+            else:
+                stats["register-rejected:" + line.split()[1]] += 1
+                if honest and line == "vregister err:issuer-mismatch":
+                    refused_honest.setdefault(subj, set()).add(op["issuer"])
+                elif honest and "#" in subj:
+                    report("C11:honest-revocation-refused", f"{line} for {ops[i][:300]}", i)
+        elif kind == "visrevoked":
+            if (line == "visrevoked true") != (op["id"] in accepted):
+                report("C11:isrevoked-disagrees-with-accepted-revocations", f"{op['id']} {line}", i)
+        elif kind == "vverify":
+            stats["verify"] += 1
+            cid, iss = op["id"], op["issuer"]
+            seen_creds.add((cid, iss))
+            if op.get("kind") == "nutsorg" and pre(cid) != iss:
+                if line != "vverify err:validation":
+                    report("C11:nuts-validator-accepts-foreign-id-prefix", f"{line} for {ops[i][:300]}", i)
+                continue
+            if cid in accepted:
+                stats["verify-with-revocation-present"] += 1
+                if line != "vverify revoked":
+                    report("C11:revocation-not-effective-or-not-permanent", f"{cid} has an accepted revocation, answer {line}", i)
+                elif iss not in accepted[cid]:
+                    stats["foreign-prefix:revoked-by-prefix-owner"] += 1
+                    report("C11:foreign-id-prefix:revoked-by-prefix-owner",
+                           f"credential {cid} of issuer {iss} is answered revoked; the only accepted revocations name {sorted(accepted[cid])}", i)
+            elif line == "vverify revoked" and not op.get("statuses"):
+                report("C11:revoked-without-revocation", f"{cid} {line}", i)
+            if iss in refused_honest.get(cid, set()) and line != "vverify revoked":
+                stats["foreign-prefix:issuer-revocation-refused"] += 1
+                report("C11:foreign-id-prefix:issuer-revocation-refused",
+                       f"issuer {iss} revoked its credential {cid} with a properly signed revocation; it was refused (issuer-mismatch) and the credential verifies: {line}", i)
+    return stats, bad
+
+
+def run_verifier_harness(ctx):
+    """second harness: real vcr/verifier with really signed and forged revocation documents"""
+    binary = ctx.go_test_binary(PKG_V, HARNESS_V, "c11v")
+    if binary is None:
+        ctx.oblige("harness-builds(verifier)", False, ctx.harness_error[-1500:])
+        return None
+    ctx.oblige("harness-builds(verifier)", True)
+    env = {"TMPDIR": ctx.scratch}
+    if ctx.replay:
+        env["VERIF_REPLAY"] = os.path.abspath(ctx.replay)
+    else:
+        env["VERIF_CORPUS"] = os.path.join(os.path.dirname(os.path.dirname(os.path.abspath(__file__))), "harness", "corpus", "C11")
+        env["VERIF_SCENARIOS"] = 1200 if ctx.thorough else 150
+    outdir = os.path.join(ctx.scratch, "outv")
+    rc, log, out = ctx.run_harness(binary, "TestVerifC11v", env, outdir=outdir, timeout=3000)
+    if rc != 0:
+        ctx.oblige("harness-runs(verifier)", False, log[-1500:])
+        return None
+    ctx.oblige("harness-runs(verifier)", True)
+    ops_p, impl_p, model_p = (os.path.join(out, x) for x in ("ops.jsonl", "impl.out", "model.out"))
+    ok, err = ctx.model("C11", ops_p, model_p)
+    ctx.oblige("model-driver-runs(verifier)", ok, err[-500:])
+    impl, model, bad = ctx.compare(impl_p, model_p)
+    ops = ctx.read_lines(ops_p)
+    stats, obad = voracle(ops, impl)
+    unknown = 0
+    for sig, what, i in obad:
+        k = i
+        while k > 0 and json.loads(ops[k]).get("op") != "vreset":
+            k -= 1
+        if ctx.violation(sig, what + f" (op line {i})", "v-" + re.sub(r"[^a-z0-9-]+", "-", sig.split(":", 1)[1])[:60] + ".jsonl", "\n".join(ops[k:i + 1]) + "\n"):
+            unknown += 1
+    ctx.oblige("oracle(verifier):property-holds-on-implementation-outputs", unknown == 0, "; ".join(b[0] for b in obad))
+    if bad:
+        i = bad[0]
+        detail = f"first differing line {i}\nop   : {ops[i][:600] if i < len(ops) else None}\nimpl : {impl[i][:300] if i < len(impl) else None}\nmodel: {model[i][:300] if i < len(model) else None}"
+        ctx.oblige("correspondence(verifier):model=impl", False, f"{len(bad)} of {len(impl)} lines differ; " + detail[:900])
+        if unknown == 0:
+            k = i
+            while k > 0 and json.loads(ops[k]).get("op") != "vreset":
+                k -= 1
+            with open(os.path.join(ctx.replay_dir(), "v-correspondence.jsonl"), "w") as f:
+                f.write("\n".join(ops[k:i + 1]) + "\n")
+            ctx.unproved(["correspondence C11 verifier harness (model.out != impl.out)"], detail + f"\nreplay ops: {ctx.replay_dir()}/v-correspondence.jsonl")
+    else:
+        ctx.oblige("correspondence(verifier):model=impl", True, f"{len(impl)} lines equal")
+    return {"lines": len(impl), "bad": len(bad), "stats": dict(stats), "outcomes": dict(Counter(impl).most_common(20))}
+
+
 def run(ctx):
     facts = ctx.facts()
     thms = ctx.build_and_audit(["NutsProofs.Props.C11"])
@@ -153,6 +280,20 @@ def run(ctx):
     max_index = (facts or {}).get("maxBitstringIndex", 131071)
     min_left = (facts or {}).get("minTimeUntilExpired", 21600)
 
+    replay_is_v = False
+    if ctx.replay:
+        with open(ctx.replay) as f:
+            first = [l for l in f.read().split("\n") if l.strip()][:1]
+        replay_is_v = bool(first) and json.loads(first[0]).get("op", "").startswith("v")
+
+    vres = None
+    if not ctx.replay or replay_is_v:
+        vres = run_verifier_harness(ctx)
+    if ctx.replay and replay_is_v:
+        ctx.cov["evaluations"] = (vres or {}).get("lines", 0)
+        ctx.cov["input_distribution"] = {"verifier_harness": vres}
+        return
+
     binary = ctx.go_test_binary(PKG, HARNESS, "c11")
     if binary is None:
         ctx.oblige("harness-builds", False, ctx.harness_error[-1500:])
@@ -163,7 +304,7 @@ def run(ctx):
         env["VERIF_REPLAY"] = os.path.abspath(ctx.replay)
     else:
         env["VERIF_CORPUS"] = os.path.join(os.path.dirname(os.path.dirname(os.path.abspath(__file__))), "harness", "corpus", "C11")
-        env["VERIF_SCENARIOS"] = 1500 if ctx.thorough else 120
+        env["VERIF_SCENARIOS"] = 2500 if ctx.thorough else 200
     rc, log, out = ctx.run_harness(binary, "TestVerifC11", env, timeout=3000)
     if rc != 0:
         ctx.oblige("harness-runs", False, log[-1500:])
@@ -176,15 +317,17 @@ def run(ctx):
     ops = ctx.read_lines(ops_p)
 
     stats, obad = oracle(ctx, ops, impl, max_index, min_left // 60)
+    unknown = 0
     for sig, what, i in obad:
-        ctx.violation(sig, what + f" (op line {i})", sig.split(":")[1] + ".jsonl", scenario_ops(ops, i))
-    ctx.oblige("oracle:property-holds-on-implementation-outputs", not obad, "; ".join(b[0] for b in obad))
+        if ctx.violation(sig, what + f" (op line {i})", sig.split(":")[1] + ".jsonl", scenario_ops(ops, i)):
+            unknown += 1
+    ctx.oblige("oracle:property-holds-on-implementation-outputs", unknown == 0, "; ".join(b[0] for b in obad))
 
     if bad:
         i = bad[0]
         detail = f"first differing line {i}\nop   : {ops[i][:600] if i < len(ops) else None}\nimpl : {impl[i][:800] if i < len(impl) else None}\nmodel: {model[i][:800] if i < len(model) else None}"
         ctx.oblige("correspondence:model=impl", False, f"{len(bad)} of {len(impl)} lines differ; " + detail[:900])
-        if not obad:
+        if unknown == 0:
             with open(os.path.join(ctx.replay_dir(), "correspondence.jsonl"), "w") as f:
                 f.write(scenario_ops(ops, i))
             ctx.unproved(["correspondence C11 (model.out != impl.out)"], detail + f"\nreplay ops: {ctx.replay_dir()}/correspondence.jsonl")
@@ -193,14 +336,20 @@ def run(ctx):
 
     kinds = Counter(json.loads(o).get("op") for o in ops if o)
     outcomes = Counter(re.sub(r"n\d/\S+|\[[^\]]*\]|\d+", "_", l)[:60] for l in impl)
-    ctx.cov["evaluations"] = len(impl)
+    vlines = (vres or {}).get("lines", 0)
+    ctx.cov["evaluations"] = len(impl) + vlines
     ctx.cov["distinct_nontrivial"] = len(set(l for l in impl if l not in ("reset", "tick", "host", "bump 0", "record none")
-                                             and "err:notfound" not in l))
-    ctx.cov["traces_validated_against_impl"] = len(impl) - len(bad)
-    ctx.cov["rule"] = ("op sequences on two real StatusList2021 nodes (SQLite, HMAC signer, virtual clock by ageing stored rows): entry / race "
-                       "(duplicate-key retry forced by a concurrent Entry of the same issuer) / par (goroutines) / bump last_issued_index to the "
-                       "page limit / revoke / serve / tick / verify (either node, lists of either node or foreign hosts) / record; plus bitstring "
-                       "differential (all indexes of small strings, boundary and negative indexes of the 16 kB string). distinct_nontrivial = distinct "
-                       "output lines that are not reset/tick/not-found")
-    ctx.cov["input_distribution"] = {"ops": dict(kinds), "features": dict(stats), "outcome_shapes": dict(outcomes.most_common(40))}
+                                             and "err:notfound" not in l)) + len((vres or {}).get("outcomes", {}))
+    ctx.cov["traces_validated_against_impl"] = len(impl) - len(bad) + vlines - (vres or {}).get("bad", 0)
+    ctx.cov["rule"] = ("(1) op sequences on two real StatusList2021 nodes (SQLite, HMAC signer, virtual clock by ageing stored rows), chosen online from "
+                       "the implementation's earlier answers: entry / race (duplicate-key retry forced by a concurrent Entry of the same issuer) / par "
+                       "(goroutines) / bump last_issued_index to the page limit / revoke (issued, re-revoked, out-of-range, malformed) / serve / tick / "
+                       "verify (either node, lists of either node or of foreign hosts serving valid, mis-signed, mis-named, malformed lists) / record; "
+                       "bitstring differential (all indexes of small strings, boundary and negative indexes of the 16 kB string). (2) real vcr/verifier "
+                       "with a real leia store: RegisterRevocation of JsonWebSignature2020-signed honest and forged revocation documents (other issuer, "
+                       "other party's key, other signer, unknown key, changed after signing, missing fields), IsRevoked, Verify of credentials with "
+                       "own/foreign id prefix, Nuts/other type, status entries on hosted lists. distinct_nontrivial = distinct output lines that are not "
+                       "reset/tick/not-found")
+    ctx.cov["input_distribution"] = {"ops": dict(kinds), "features": dict(stats), "outcome_shapes": dict(outcomes.most_common(40)),
+                                     "verifier_harness": vres}
     ctx.cov["samples"] = [ops[len(ops) // 2][:300] if ops else "", impl[len(impl) // 2][:300] if impl else ""]
